@@ -14,7 +14,7 @@ RULE = ('prefixes of the shipped Tripoli-4 listings (tests/eponine/tripoli4/data
         'a line the scanner interprets (40%: BATCH, number of tasks is, PACKET_LENGTH, initialization time, batch number :, '
         'Edition after batch number, number of batches used, simulation / exploitation / elapsed time, RESULTS ARE GIVEN), '
         'or anywhere (30%); thorough: every byte offset of the listings below 15 kB; each prefix is opened in the one '
-        'long-lived checker process, which has parsed other listings before, under a 20 s alarm; non-trivial = a prefix '
+        'long-lived checker process, which has parsed other listings before, under a limit of 20 s of processor time per call; non-trivial = a prefix '
         'on which the scan succeeds or that ends inside an interpreted line; distinct = (file, offset)')
 CORRESPONDS = ('Model/T4Scan.lean (Scanner._get_collres line by line, BatchResultScanner, PhEmEp / homogenised-material '
                'side outputs, _add_time, Parser.__init__ outcome) vs valjean.eponine.tripoli4.scan.Scanner / parse.Parser on '
@@ -135,6 +135,9 @@ def content(case):
     return data, data[:case['offset']]
 
 
+CPU_LIMIT = 20.0
+
+
 class Alarm(Exception):
     pass
 
@@ -173,8 +176,12 @@ def scan_and_parse(path, want_results=True):
     """what the real code does with the file at `path`"""
     from valjean.eponine.tripoli4.parse import Parser, ParserException
     out = {}
+    # "never hangs" is decided on processor time, per call (20 s for Parser() and for each parse_from_number; the whole
+    # 3 MB example takes 4 s), so that a loaded machine cannot fake a hang; a wall-clock alarm of 600 s backs it up
     old = signal.signal(signal.SIGALRM, _alarm)
-    signal.alarm(20)
+    oldp = signal.signal(signal.SIGPROF, _alarm)
+    signal.alarm(600)
+    signal.setitimer(signal.ITIMER_PROF, CPU_LIMIT)
     try:
         try:
             parser = Parser(path)
@@ -201,19 +208,21 @@ def scan_and_parse(path, want_results=True):
         if want_results:
             for key in out['keys']:
                 try:
+                    signal.setitimer(signal.ITIMER_PROF, CPU_LIMIT)
                     pres = parser.parse_from_number(key)
                     out['parse'][key] = ('ok', canon(pres.pres), canon(pres.res.get('list_responses')))
                 except ParserException:
                     out['parse'][key] = ('ParserException',)
                 except Alarm:
                     out['parse'][key] = ('timeout',)
-                    break
                 except Exception as exc:  # pylint: disable=broad-except
                     out['parse'][key] = (type(exc).__name__, str(exc)[:160])
         return out
     finally:
+        signal.setitimer(signal.ITIMER_PROF, 0)
         signal.alarm(0)
         signal.signal(signal.SIGALRM, old)
+        signal.signal(signal.SIGPROF, oldp)
 
 
 _TMP = {}
@@ -323,12 +332,12 @@ def oracle(case, impl, run):
     run.count('cut inside an interpreted line' if inside else 'cut elsewhere')
     where = f"{case['file']} cut at byte {case['offset']}"
     if impl['outcome'] == 'timeout':
-        fails.append(('never_hangs', where + ': Parser() did not return within 20 s'))
+        fails.append(('never_hangs', where + ': Parser() did not return within 20 s of processor time'))
     elif impl['outcome'] not in ('ok', 'ParserException'):
         fails.append(('prefix_no_crash', where + f": Parser() raised {impl['outcome']}: {impl.get('detail', '')}"))
     for key, res in impl.get('parse', {}).items():
         if res == 'timeout':
-            fails.append(('never_hangs', where + f': parse_from_number({key}) did not return within 20 s'))
+            fails.append(('never_hangs', where + f': parse_from_number({key}) did not return within 20 s of processor time'))
         elif res not in ('ok', 'ParserException'):
             fails.append(('prefix_no_crash', where + f': parse_from_number({key}) raised {res}'))
         run.count('edition:' + (res if isinstance(res, str) else 'other exception'))
